@@ -66,7 +66,10 @@ RootWrites(s, st) ==
 Swallows(st) == st = "models"
 
 \* does the diff stage find a difference?  (_show_diffs: only *.py present on both sides)
-DiffFinds(s) == s.existing = "different"     \* "partial" = files missing on the old side: not compared
+\* "partial" = files missing on the old side: not compared.  As the code behaves, the temp tree ALSO differs from an
+\* up-to-date existing tree when post-processing is on (ruff sorts imports differently without the ancestor __init__.py
+\* files) and when the core is external (the rich client __init__.py is written only on the direct path).
+DiffFinds(s) == s.existing = "different" \/ s.pp \/ s.core # "embedded"
 
 Init ==
   /\ sc \in Scenarios
@@ -77,6 +80,7 @@ Judge(t, res, s) ==
   \cup (IF t \ Allowed # {} THEN {"C10.escaped_write"} ELSE {})
   \cup (IF res = "ok" /\ s.fault # "none" /\ Runs(s, s.fault) THEN {"C10.fault_swallowed"} ELSE {})
   \cup (IF res = "ok" /\ TempPath(s) /\ s.existing \in {"different", "partial"} THEN {"C09.diff_missed"} ELSE {})
+  \cup (IF res = "raised" /\ TempPath(s) /\ s.existing = "equal" /\ s.fault = "none" THEN {"C09.rerun_failed"} ELSE {})
 
 Step ==
   /\ result = "running" /\ pc <= Len(Stages)
